@@ -551,6 +551,99 @@ func genG4(t *rapid.T) Case {
 	return Case{Src: "g4", Text: d.Text}
 }
 
+// genSynonym rewrites a corpus query into a differently spelled text that openCypher defines to mean
+// the same: keyword case, DESC/DESCENDING and ASC/ASCENDING, blanks replaced by other whitespace or
+// comments. The variant is carried in Sibling with Src "syn": both texts must get EQUAL models.
+func genSynonym(t *rapid.T) Case {
+	qs := corpus.Queries()
+	q := qs[rapid.IntRange(0, len(qs)-1).Draw(t, "q")]
+	toks, _ := corpus.Lex(q)
+	kws := keywords()
+	n := rapid.IntRange(1, 4).Draw(t, "nrewrites")
+	// prefer the rewrites that touch meaning-bearing keywords
+	var dirIdx []int
+	for i, tk := range toks {
+		switch kws[tk.Name] {
+		case "asc", "desc", "ascending", "descending":
+			dirIdx = append(dirIdx, i)
+		}
+	}
+	for r := 0; r < n && len(toks) > 0; r++ {
+		i := rapid.IntRange(0, len(toks)-1).Draw(t, "i")
+		if len(dirIdx) > 0 && rapid.IntRange(0, 1).Draw(t, "dirfirst") == 0 {
+			i = dirIdx[rapid.IntRange(0, len(dirIdx)-1).Draw(t, "di")]
+		}
+		tk := &toks[i]
+		k, isKw := kws[tk.Name]
+		switch {
+		case isKw && (k == "desc" || k == "descending" || k == "asc" || k == "ascending"):
+			long := map[string]string{"desc": "descending", "descending": "desc", "asc": "ascending", "ascending": "asc"}[k]
+			if rapid.Bool().Draw(t, "upper") {
+				long = strings.ToUpper(long)
+			}
+			tk.Text = long
+		case isKw && i+1 < len(toks) && toks[i+1].Text == "(":
+			// a keyword token in function-name position (count(…), any(…)) is a name: its spelling is kept in the model
+		case isKw && i > 0 && (toks[i-1].Text == "." || toks[i-1].Text == ":" || toks[i-1].Text == "|"):
+			// a reserved word used as property key / label is a name
+		case isKw && i+1 < len(toks) && toks[i+1].Text == ":":
+			// a reserved word used as map key is a name
+		case isKw:
+			switch rapid.IntRange(0, 2).Draw(t, "case") {
+			case 0:
+				tk.Text = strings.ToUpper(tk.Text)
+			case 1:
+				tk.Text = strings.ToLower(tk.Text)
+			default:
+				rs := []rune(strings.ToLower(tk.Text))
+				for j := range rs {
+					if j%2 == 1 {
+						rs[j] = []rune(strings.ToUpper(string(rs[j])))[0]
+					}
+				}
+				tk.Text = string(rs)
+			}
+		case tk.Name == "SP":
+			tk.Text = rapid.SampledFrom([]string{"  ", "\n", "\t", " /* c */ ", " // c\n", "\u00a0", " \r\n "}).Draw(t, "ws")
+		}
+	}
+	c := Case{Src: "syn", Text: q, Sibling: corpus.Join(toks)}
+	if c.Sibling == c.Text {
+		c.Sibling = ""
+	}
+	return c
+}
+
+func synOracle(c Case) (evid.Info, error) {
+	info := evid.Info{Classes: []string{"src=syn"}}
+	q1, err := parse(c.Text)
+	if err != nil || q1 == nil || c.Sibling == "" {
+		info.Skip = "rejected-or-identical"
+		return info, nil
+	}
+	q2, err := parse(c.Sibling)
+	if err != nil || q2 == nil {
+		// rejecting a legal spelling (e.g. the mixed-case literal tRuE) is over-strictness, which C07 does not forbid
+		info.Skip = "variant-rejected"
+		return info, nil
+	}
+	if !reflect.DeepEqual(q1, q2) {
+		t1, _ := emit(q1)
+		t2, _ := emit(q2)
+		return info, fmt.Errorf("two spellings of the same query get different models:\n  %q -> %q\n  %q -> %q", c.Text, t1, c.Sibling, t2)
+	}
+	if strings.Contains(strings.ToLower(c.Sibling), "ending") {
+		info.Classes = append(info.Classes, "long-sort-keyword")
+	}
+	info.NonTrivial = true
+	info.Key = normWS(c.Sibling)
+	return info, nil
+}
+
+func TestC07Synonyms(t *testing.T) {
+	evid.Prop(t, "syn", evid.R.N(4000, 15000), genSynonym, synOracle)
+}
+
 func TestC07Corpus(t *testing.T) {
 	if evid.Register(t, "corpus", oracle) {
 		return
